@@ -444,3 +444,63 @@ PROPS["C17"] = dict(
     assumptions=["ThreadSanitizer judges the accesses that were executed (happens-before); the runtime-dispatch build cannot start under TSan (ifunc resolver), "
                  "so the static AVX2 build is used"],
 )
+
+# ------------------------------------------------------------------------------------------------ C15
+def compare_outcome_files(ctx):
+    """post hook: per-case outcome digests of every run must be identical; names the first differing cases"""
+    import glob
+    import os
+    import struct
+    out = []
+    per_run = {}
+    for idx, spec in enumerate(ctx["run_specs"]):
+        d = {}
+        for f in glob.glob(os.path.join(ctx["tmpdir"], "r%d.oc.*" % idx)):
+            with open(f, "rb") as fh:
+                b = fh.read()
+            for off in range(0, len(b) - 15, 16):
+                g, h = struct.unpack_from("<QQ", b, off)
+                d[g] = (d.get(g, 0) + h) & 0xffffffffffffffff
+        per_run[spec["name"]] = d
+    names = list(per_run)
+    if len(names) < 2:
+        return out
+    ref = names[0]
+    for n in names[1:]:
+        a, b = per_run[ref], per_run[n]
+        if len(a) != len(b):
+            out.append(dict(key="cross-build:case-count-differs", run=n, stream="", gidx=-1, witness_hex="",
+                            detail="run %s judged %d cases, run %s %d (a worker died?)" % (ref, len(a), n, len(b))))
+        diff = sorted(g for g in a if g in b and a[g] != b[g])
+        for g in diff[:5]:
+            out.append(dict(key="cross-build-difference:%s-vs-%s" % (ref, n), run=n, stream="", gidx=g, witness_hex="",
+                            detail="case %d: outcome digest %016x in %s, %016x in %s (%d cases differ); replay with --only %d in both builds" % (
+                                g, a[g], ref, b[g], n, len(diff), g)))
+    return out
+
+
+def _c15_runs():
+    runs = []
+    for cfg in ["prod-hsw", "prod-wsm", "prod-dyn", "asan-hsw", "asan-wsm", "asan-dyn", "prod-dyn+SONIC_VERIF_DISPATCH_NO_HASWELL"]:
+        env = dict(ASAN_NOLEAK_ENV) if cfg.startswith("asan") else {}
+        name = cfg.replace("+SONIC_VERIF_DISPATCH_NO_HASWELL", "-nohsw")
+        runs.append(dict(name=name, src="xbuild_harness.cpp", cfg=cfg, env=env, outcomes=True))
+    return runs
+
+
+PROPS["C15"] = dict(
+    title="All supported x86 build configurations compute identical results",
+    post=compare_outcome_files,
+    rule=("one deterministic corpus (generated valid documents with paths and second texts, 1-3 mutations of documents, string literals "
+          "with escapes/control bytes/quotes at every alignment as value, key and on-demand key, number spellings of every family, "
+          "hostile shapes) is run in seven builds: static AVX2, static SSE4.2, runtime dispatch, each optimised and under ASan, plus the "
+          "runtime-dispatch build with its AVX2 variants compiled out (hook H1) so that the dispatcher takes its SSE4.2 arm on this "
+          "CPU. Per case one digest covers accept/reject, error code, offset, Dump bytes, GetOnDemand code + slice bounds + offset, "
+          "UpdateLazy result, ParseSchema result, Serialize bytes and FindMember results of an API-built document; when the reference "
+          "parser places the first fault inside a string literal only accept/reject is digested. The driver compares all builds case "
+          "by case; distinct = hash(text, second text)"),
+    runs=_c15_runs(),
+    require=["corpus-lines", "line:valid-text", "line:invalid-text", "line:fault-inside-string-literal(only accept/reject compared)",
+             "on-demand-lookups", "UpdateLazy-calls", "ParseSchema-calls", "api-built-documents-serialised"],
+    assumptions=["this CPU has AVX2: the SSE4.2 arm of the dispatcher is reached through hook H1, not through real hardware; g++ 12 only"],
+)
